@@ -230,6 +230,31 @@ class BuiltinMixin:
             if nm in table:
                 return z3.BoolVal(base in table[nm])
             raise Unsupported('isinstance with %s' % nm)
+        if is_py(v, 'dynpayload'):
+            # payload of a packet whose payload class is dynamic (`_pcls` holds the tag of the payload class)
+            owner = v.py[1]
+            layer = owner.t.layers[0]
+            sc = self.pkt_schema(layer)
+            plz = z3.Select(self.heap_arr(('pkt:' + layer, 'payload'), sc.fields['payload']), owner.z)
+            tagz = z3.Select(self.heap_arr(('pkt:' + layer, '_pcls'), sc.fields['_pcls']), owner.z)
+            if is_py(cl, 'ext') and cl.py[1].endswith('NoPayload'):
+                return plz == 0
+            if is_py(cl, 'class'):
+                ci = cl.py[2]
+                leaf = self.spec.schemas.get('pkt:' + ci.qualname)
+                if leaf is not None:
+                    return z3.And(plz != 0, tagz == class_tag(ci.qualname))
+                # a base class: any modelled packet class deriving from it
+                tags = []
+                for sname, s2 in self.spec.schemas.items():
+                    if s2.pkt and s2.pyclass is not None:
+                        mro, _e = self.prog.mro(*s2.pyclass)
+                        if ci in mro:
+                            tags.append(tagz == class_tag(sname[4:]))
+                sub = z3.Function('pcls_is_' + ci.qualname, z3.IntSort(), z3.BoolSort())
+                # (classes the contracts do not model: unknown, but fixed per class tag)
+                return z3.And(plz != 0, z3.Or(*(tags + [sub(tagz)])))
+            raise Unsupported('isinstance of a dynamic payload against %s' % (cl.py[1],))
         if is_py(cl, 'class'):
             ci = cl.py[2]
             if is_py(v, 'exc'):
@@ -671,6 +696,22 @@ class BuiltinMixin:
             fn = args[0].py[1]
             self.set_attr(pkt, fn, args[1])
             return NONE
+        if name == 'delfieldval':
+            # scapy: the explicitly set value is dropped, the field reads as its declared default again
+            fn = args[0].py[1] if args[0].py and args[0].py[0] == 'strlit' else None
+            if fn is None:
+                raise Unsupported('delfieldval with symbolic name')
+            for i, layer in enumerate(pkt.t.layers):
+                sc = self.pkt_schema(layer)
+                if fn in sc.fields:
+                    ci = self.prog.cls(*sc.pyclass)
+                    for dn, default, owner in self.pkt_defaults(ci):
+                        if dn == fn:
+                            ref = self.pkt_layer_ref(pkt, i)
+                            self.write_heap(ref, ('pkt:' + layer, fn), sc.fields[fn],
+                                            self.pkt_default_value(owner, fn, default, sc.fields[fn]))
+                            return NONE
+            raise Unsupported('delfieldval of unknown field %s' % fn)
         if name == 'copy':
             return self.pkt_copy(pkt)
         if name == 'guess_payload_class':
